@@ -14,11 +14,11 @@
 (* (typed with tools/gen_values.py)                                                         *)
 EXTENDS Naturals, Sequences
 
-CoreIds == {"w", "two", "empty", "bsn", "nl", "numstr", "int", "float", "t", "null", "ref", "uni", "flow", "chain", "syn", "tens", "qop", "ann", "ctor1", "holo", "l0", "l2", "l3", "lnest", "lmatrix", "lmap", "lfalsy", "lq", "lexpr", "z1", "zpy", "ztrail", "zempty"}
-FullIds == {"three", "quote", "bslash", "tab", "truestr", "nullstr", "vsstr", "truedot", "neg", "zero", "big", "exp", "negexp", "f", "ver", "verpre", "var", "vartyped", "ref2b", "path", "hyph", "colon", "pct", "emoji", "alt", "con", "cat", "at", "mixed", "ctor2", "ctor0", "holoenum", "l1", "lnullmap", "lemptymap", "ltq", "lann", "lpattern", "z4", "ztab", "zblank"}
+CoreIds == {"w", "two", "empty", "bsn", "nl", "numstr", "int", "float", "t", "null", "ref", "uni", "flow", "chain", "syn", "tens", "qop", "tens3", "slashes", "nlsp", "ann", "ctor1", "holo", "l0", "l2", "l3", "lnest", "lmatrix", "lmap", "lfalsy", "lq", "lslash", "lexpr", "z1", "zpy", "ztrail", "zempty"}
+FullIds == {"three", "quote", "bslash", "tab", "truestr", "nullstr", "vsstr", "truedot", "neg", "zero", "big", "exp", "negexp", "f", "ver", "verpre", "var", "vartyped", "ref2b", "path", "hyph", "colon", "pct", "emoji", "alt", "con", "cat", "at", "mixed", "syn3", "slash2", "relpath", "abspath", "docpath", "nllead", "ctor2", "ctor0", "holoenum", "l1", "lnullmap", "lemptymap", "ltq", "lann", "lpattern", "z4", "ztab", "zblank"}
 ValIds == CoreIds \cup FullIds
 ZoneIds == {"z1", "zpy", "z4", "ztrail", "zempty", "ztab", "zblank"}
-ListIds == {"holo", "holoenum", "l0", "l1", "l2", "l3", "lnest", "lmatrix", "lmap", "lfalsy", "lnullmap", "lemptymap", "lq", "ltq", "lexpr", "lann", "lpattern"}
+ListIds == {"holo", "holoenum", "l0", "l1", "l2", "l3", "lnest", "lmatrix", "lmap", "lfalsy", "lnullmap", "lemptymap", "lq", "ltq", "lslash", "lexpr", "lann", "lpattern"}
 
 Abs(v) ==
   CASE v = "w" -> [t |-> "str", s |-> "hello", xs |-> <<>>]
@@ -67,6 +67,15 @@ Abs(v) ==
     [] v = "at" -> [t |-> "str", s |-> "A@B", xs |-> <<>>]
     [] v = "mixed" -> [t |-> "str", s |-> "A{U2295}B{U2192}C", xs |-> <<>>]
     [] v = "qop" -> [t |-> "str", s |-> "a -> b", xs |-> <<>>]
+    [] v = "tens3" -> [t |-> "str", s |-> "A{U21CC}B{U21CC}C", xs |-> <<>>]
+    [] v = "syn3" -> [t |-> "str", s |-> "A{U2295}B{U2295}C", xs |-> <<>>]
+    [] v = "slashes" -> [t |-> "str", s |-> "//cdn.example.com/lib.js", xs |-> <<>>]
+    [] v = "slash2" -> [t |-> "str", s |-> "//", xs |-> <<>>]
+    [] v = "relpath" -> [t |-> "str", s |-> "./a.py", xs |-> <<>>]
+    [] v = "abspath" -> [t |-> "str", s |-> "/etc/hosts", xs |-> <<>>]
+    [] v = "docpath" -> [t |-> "str", s |-> "docs/x.md", xs |-> <<>>]
+    [] v = "nlsp" -> [t |-> "str", s |-> "keeps its space {U000A}next", xs |-> <<>>]
+    [] v = "nllead" -> [t |-> "str", s |-> "a{U000A}  b", xs |-> <<>>]
     [] v = "ann" -> [t |-> "str", s |-> "ATHENA<wisdom>", xs |-> <<>>]
     [] v = "ctor1" -> [t |-> "str", s |-> "NEVER<A>", xs |-> <<>>]
     [] v = "ctor2" -> [t |-> "str", s |-> "NEVER<A,B>", xs |-> <<>>]
@@ -85,6 +94,7 @@ Abs(v) ==
     [] v = "lemptymap" -> [t |-> "list", s |-> "", xs |-> <<[t |-> "pair", s |-> "k", xs |-> <<[t |-> "str", s |-> "", xs |-> <<>>]>>]>>]
     [] v = "lq" -> [t |-> "list", s |-> "", xs |-> <<[t |-> "str", s |-> "x y", xs |-> <<>>], [t |-> "int", s |-> "42", xs |-> <<>>], [t |-> "bool", s |-> "true", xs |-> <<>>], [t |-> "null", s |-> "", xs |-> <<>>]>>]
     [] v = "ltq" -> [t |-> "list", s |-> "", xs |-> <<[t |-> "str", s |-> "a{U000A}b", xs |-> <<>>], [t |-> "str", s |-> "X{U2192}Y", xs |-> <<>>], [t |-> "str", s |-> "hello there", xs |-> <<>>]>>]
+    [] v = "lslash" -> [t |-> "list", s |-> "", xs |-> <<[t |-> "str", s |-> "//x", xs |-> <<>>], [t |-> "str", s |-> "b", xs |-> <<>>]>>]
     [] v = "lexpr" -> [t |-> "list", s |-> "", xs |-> <<[t |-> "str", s |-> "A{U2192}B", xs |-> <<>>], [t |-> "str", s |-> "C", xs |-> <<>>]>>]
     [] v = "lann" -> [t |-> "list", s |-> "", xs |-> <<[t |-> "str", s |-> "X<a>", xs |-> <<>>], [t |-> "str", s |-> "b", xs |-> <<>>]>>]
     [] v = "lpattern" -> [t |-> "list", s |-> "", xs |-> <<[t |-> "pair", s |-> "PATTERN", xs |-> <<[t |-> "str", s |-> "abc", xs |-> <<>>]>>], [t |-> "pair", s |-> "REGEX", xs |-> <<[t |-> "str", s |-> "a.*", xs |-> <<>>]>>]>>]
@@ -174,6 +184,22 @@ Spell(v) ==
     [] v = "mixed" -> <<<<[k |-> "first", c |-> <<"A", "U2295", "B", "U2192", "C">>]>>,
         <<[k |-> "first", c |-> <<"A", "+", "B", "->", "C">>]>>>>
     [] v = "qop" -> <<<<[k |-> "first", c |-> <<"\"a -> b\"">>]>>>>
+    [] v = "tens3" -> <<<<[k |-> "first", c |-> <<"A", "U21CC", "B", "U21CC", "C">>]>>,
+        <<[k |-> "first", c |-> <<"A", " ", "vs", " ", "B", " ", "vs", " ", "C">>]>>,
+        <<[k |-> "first", c |-> <<"A", "<->", "B", "<->", "C">>]>>,
+        <<[k |-> "first", c |-> <<"\"A", "U21CC", "B", "U21CC", "C\"">>]>>>>
+    [] v = "syn3" -> <<<<[k |-> "first", c |-> <<"A", "U2295", "B", "U2295", "C">>]>>,
+        <<[k |-> "first", c |-> <<"A", "+", "B", "+", "C">>]>>>>
+    [] v = "slashes" -> <<<<[k |-> "first", c |-> <<"\"//cdn.example.com/lib.js\"">>]>>>>
+    [] v = "slash2" -> <<<<[k |-> "first", c |-> <<"\"//\"">>]>>>>
+    [] v = "relpath" -> <<<<[k |-> "first", c |-> <<"\"./a.py\"">>]>>>>
+    [] v = "abspath" -> <<<<[k |-> "first", c |-> <<"\"/etc/hosts\"">>]>>>>
+    [] v = "docpath" -> <<<<[k |-> "first", c |-> <<"docs/x.md">>]>>,
+        <<[k |-> "first", c |-> <<"\"docs/x.md\"">>]>>>>
+    [] v = "nlsp" -> <<<<[k |-> "first", c |-> <<"\"keeps its space \\nnext\"">>]>>,
+        <<[k |-> "first", c |-> <<"@TQ", "\"\"\"keeps its space ">>], [k |-> "raw", c |-> <<"next\"\"\"">>]>>>>
+    [] v = "nllead" -> <<<<[k |-> "first", c |-> <<"\"a\\n  b\"">>]>>,
+        <<[k |-> "first", c |-> <<"@TQ", "\"\"\"a">>], [k |-> "raw", c |-> <<"  b\"\"\"">>]>>>>
     [] v = "ann" -> <<<<[k |-> "first", c |-> <<"ATHENA<wisdom>">>]>>>>
     [] v = "ctor1" -> <<<<[k |-> "first", c |-> <<"NEVER<A>">>]>>,
         <<[k |-> "first", c |-> <<"NEVER", "[", "A", "]">>]>>>>
@@ -215,6 +241,8 @@ Spell(v) ==
         <<[k |-> "first", c |-> <<"[", "\"x y\"", ",", "42", ",", "true", ",", "null", "]">>]>>>>
     [] v = "ltq" -> <<<<[k |-> "first", c |-> <<"[">>], [k |-> "rel", c |-> <<"  ", "\"a\\nb\"", ",">>], [k |-> "rel", c |-> <<"  ", "X", "U2192", "Y", ",">>], [k |-> "rel", c |-> <<"  ", "\"hello there\"">>], [k |-> "rel", c |-> <<"]">>]>>,
         <<[k |-> "first", c |-> <<"[", "@TQ", "\"\"\"a">>], [k |-> "raw", c |-> <<"b\"\"\"", ",", " ", "X", "->", "Y", ",", " ", "\"hello there\"", "]">>]>>>>
+    [] v = "lslash" -> <<<<[k |-> "first", c |-> <<"[", "\"//x\"", ",", "b", "]">>]>>,
+        <<[k |-> "first", c |-> <<"[">>], [k |-> "rel", c |-> <<"  ", "\"//x\"", ",">>], [k |-> "rel", c |-> <<"  ", "b">>], [k |-> "rel", c |-> <<"]">>]>>>>
     [] v = "lexpr" -> <<<<[k |-> "first", c |-> <<"[", "A", "U2192", "B", ",", "C", "]">>]>>,
         <<[k |-> "first", c |-> <<"[", "A", "->", "B", ",", " ", "C", "]">>]>>>>
     [] v = "lann" -> <<<<[k |-> "first", c |-> <<"[">>], [k |-> "rel", c |-> <<"  ", "X<a>", ",">>], [k |-> "rel", c |-> <<"  ", "b">>], [k |-> "rel", c |-> <<"]">>]>>,
